@@ -32,6 +32,9 @@ Fixpoint next_idx chs : option nat :=
 Definition move_at (i : nat) chs : pop A :=
   if Nat.eqb (S i) (length chs) then PRead 1 1 false else PCopy i 1 1 false.
 
+Lemma wsum_cons_empty c rest : pend (ch_conn c) = [] -> wsum (c :: rest) = wsum rest.
+Proof. intros H. cbn [wsum]. rewrite H. cbn [length]. rewrite Nat.mul_0_r. reflexivity. Qed.
+
 Lemma next_idx_none chs : next_idx chs = None -> pend_all chs = [].
 Proof.
   induction chs as [|c rest IH]; cbn [next_idx pend_all]; [reflexivity|].
@@ -83,11 +86,11 @@ Proof.
     destruct (next_idx rest) as [j|] eqn:Ej; [|discriminate]. cbn [option_map]. intros H; inversion H; subst i.
     assert (Hch1 : chain_ok rest) by (cbn [chain_ok] in Hch; destruct rest; [exact I|tauto]).
     destruct (IH j Hwf1 Hch1 eq_refl) as [[Hlt Hw]|(Heq & Hw & Her)].
-    + left. split; [cbn [length]; lia|]. cbn [copy_at wsum]. rewrite Ep. cbn [length]. rewrite !Nat.mul_0_r. lia.
+    + left. split; [cbn [length]; lia|]. cbn [copy_at]. rewrite !(wsum_cons_empty _ _ Ep). exact Hw.
     + right. destruct rest as [|d rest']; [discriminate|].
       rewrite read_last_cons. destruct (read_last (d :: rest') 1 1 false) as [rest1 r1] eqn:Er.
       cbn [fst snd] in *. split; [cbn [length] in *; lia|]. split; [|exact Her].
-      cbn [wsum]. rewrite Ep. cbn [length]. rewrite !Nat.mul_0_r. lia.
+      rewrite !(wsum_cons_empty _ _ Ep). exact Hw.
   - intros H; inversion H; subst i.
     assert (Hne : pend (ch_conn c) <> []) by (rewrite Ep; discriminate).
     destruct rest as [|d rest'].
@@ -123,11 +126,18 @@ Proof.
     rewrite Her. cbn [p_chs p_written]. auto.
 Qed.
 
+(* copier iterations and sink reads with non-empty buffers: what the tunnel does on its own *)
+Definition is_move (o : pop A) : Prop :=
+  match o with PCopy _ n _ _ => 0 < n | PRead n _ _ => 0 < n | _ => False end.
+
+Lemma move_at_is_move i chs : is_move (move_at i chs).
+Proof. unfold move_at. destruct (Nat.eqb (S i) (length chs)); cbn; lia. Qed.
+
 (* everything in flight can be delivered *)
 Lemma drain_exists m : forall s, pinv s -> wsum (p_chs s) <= m ->
   exists ops, pend_all (p_chs (prun s ops)) = [] /\ p_written (prun s ops) = p_written s
               /\ head_closed (p_chs (prun s ops)) = head_closed (p_chs s)
-              /\ Forall (@pos_read A) ops.
+              /\ Forall is_move ops.
 Proof.
   induction m as [|m IH]; intros s Hi Hm.
   - destruct (next_idx (p_chs s)) as [i|] eqn:E.
@@ -142,8 +152,136 @@ Proof.
       destruct (IH (pstep s o) (pstep_inv o Hi) ltac:(lia)) as (ops & H1 & H2 & H3 & H4).
       exists (o :: ops). cbn [prun fold_left]. change (fold_left (@pstep A) ops (pstep s o)) with (prun (pstep s o) ops).
       repeat split; auto; try congruence.
-      constructor; auto. unfold o, move_at. destruct (Nat.eqb (S i) (length (p_chs s))); cbn; auto.
+      constructor; auto. apply move_at_is_move.
     + exists []. cbn. repeat split; auto. apply next_idx_none; exact E.
+Qed.
+
+(* ------------------------------------------------------------------ the close travels down the chain *)
+Fixpoint count_open chs : nat :=
+  match chs with
+  | [] => 0
+  | c :: rest => (if ch_closed c then 0 else 1) + count_open rest
+  end.
+
+(* the copier whose source is closed while its destination is still open *)
+Fixpoint close_idx chs : option nat :=
+  match chs with
+  | [] => None
+  | c :: rest =>
+      match rest with
+      | [] => None
+      | d :: _ => if ch_closed d then option_map S (close_idx rest) else Some 0
+      end
+  end.
+
+Lemma close_idx_none chs : head_closed chs = true -> close_idx chs = None -> all_closed chs.
+Proof.
+  induction chs as [|c rest IH]; intros Hh Hn; [constructor|].
+  cbn [head_closed] in Hh. constructor; [exact Hh|].
+  destruct rest as [|d rest']; [constructor|].
+  cbn [close_idx] in Hn. destruct (ch_closed d) eqn:Hd; [|discriminate].
+  apply IH; [exact Hd|]. destruct (close_idx (d :: rest')); [discriminate|reflexivity].
+Qed.
+
+Lemma pend_all_nil_cons c rest : pend_all (c :: rest) = [] -> pend (ch_conn c) = [] /\ pend_all rest = [].
+Proof. cbn [pend_all]. intros H. apply app_eq_nil in H. tauto. Qed.
+
+Lemma close_progress chs i :
+  Forall (@wfch A) chs -> pend_all chs = [] -> head_closed chs = true -> close_idx chs = Some i ->
+  count_open (copy_at i chs 1 1 false) < count_open chs.
+Proof.
+  revert i. induction chs as [|c rest IH]; intros i Hwf Hp Hh; cbn [close_idx]; [discriminate|].
+  destruct rest as [|d rest']; [discriminate|].
+  inversion Hwf as [|? ? Hwc Hwf1]; subst.
+  destruct (pend_all_nil_cons Hp) as [Hpc Hpr]. cbn [head_closed] in Hh.
+  destruct (ch_closed d) eqn:Hd.
+  - destruct (close_idx (d :: rest')) as [j|] eqn:Ej; [|discriminate]. cbn [option_map].
+    intros H; inversion H; subst i.
+    change (copy_at (S j) (c :: d :: rest') 1 1 false) with (c :: copy_at j (d :: rest') 1 1 false).
+    cbn [count_open]. specialize (IH j Hwf1 Hpr Hd eq_refl). lia.
+  - intros H; inversion H; subst i. cbn [copy_at]. unfold copy_step. rewrite Hd.
+    destruct (read (ch_conn c) 1 1 false) as [c' r] eqn:E.
+    assert (Hwc' : wfc (ch_conn c) true) by (unfold wfch in Hwc; rewrite Hh in Hwc; exact Hwc).
+    destruct (read_closed_iff _ _ Hwc' (le_n 1) E) as [Hiff _].
+    rewrite (proj2 Hiff Hpc).
+    assert (Hcl : ch_closed (ch_close (match r_data r with [] => d | _ :: _ => ch_write d (r_data r) end)) = true)
+      by apply ch_close_spec.
+    cbn [count_open ch_closed]. rewrite Hcl, Hh, Hd. lia.
+Qed.
+
+Lemma close_exists m : forall s, pinv s -> count_open (p_chs s) <= m ->
+  pend_all (p_chs s) = [] -> head_closed (p_chs s) = true ->
+  exists ops, all_closed (p_chs (prun s ops)) /\ pend_all (p_chs (prun s ops)) = []
+              /\ p_written (prun s ops) = p_written s /\ Forall is_move ops.
+Proof.
+  induction m as [|m IH]; intros s Hi Hm Hp Hh.
+  - destruct (close_idx (p_chs s)) as [i|] eqn:E.
+    + pose proof (close_progress (inv_wf Hi) Hp Hh E). lia.
+    + exists []. cbn. repeat split; auto. apply close_idx_none; auto.
+  - destruct (close_idx (p_chs s)) as [i|] eqn:E.
+    + pose proof (close_progress (inv_wf Hi) Hp Hh E) as Hlt.
+      set (o := PCopy i 1 1 false : pop A).
+      destruct (copy_at_spec i 1 1 false (inv_wf Hi) (inv_chain Hi)) as (_ & _ & Cp & _ & Chd & _ & _).
+      destruct (IH (pstep s o) (pstep_inv o Hi)) as (ops & H1 & H2 & H3 & H4).
+      * cbn [pstep p_chs]. lia.
+      * cbn [pstep p_chs]. rewrite Cp. exact Hp.
+      * cbn [pstep p_chs]. rewrite Chd. exact Hh.
+      * exists (o :: ops). cbn [prun fold_left].
+        change (fold_left (@pstep A) ops (pstep s o)) with (prun (pstep s o) ops).
+        repeat split; auto. constructor; auto. cbn. lia.
+    + exists []. cbn. repeat split; auto. apply close_idx_none; auto.
+Qed.
+
+Lemma read_last_closed chs :
+  chs <> [] -> Forall (@wfch A) chs -> all_closed chs -> pend_all chs = [] ->
+  r_err (snd (read_last chs 1 1 false)) = EClosed.
+Proof.
+  induction chs as [|c rest IH]; intros Hne Hwf Hall Hp; [congruence|].
+  inversion Hwf as [|? ? Hwc Hwf1]; subst. inversion Hall as [|? ? Hcc Hall1]; subst.
+  destruct (pend_all_nil_cons Hp) as [Hpc Hpr].
+  destruct rest as [|d rest'].
+  - cbn [read_last]. destruct (read (ch_conn c) 1 1 false) as [c' r] eqn:E. cbn [snd].
+    assert (Hwc' : wfc (ch_conn c) true) by (unfold wfch in Hwc; rewrite Hcc in Hwc; exact Hwc).
+    destruct (read_closed_iff _ _ Hwc' (le_n 1) E) as [Hiff _]. apply Hiff. exact Hpc.
+  - rewrite read_last_cons. specialize (IH ltac:(discriminate) Hwf1 Hall1 Hpr).
+    destruct (read_last (d :: rest') 1 1 false) as [rest1 r1]. exact IH.
+Qed.
+
+(* ------------------------------------------------------------------ main statement *)
+Theorem pipeline_live hops (ops : list (pop A)) :
+  let s := prun (pinit A hops) ops in
+  exists more,
+    Forall is_move more
+    /\ p_delivered (prun s more) = accepted ops
+    /\ (head_closed (p_chs s) = true -> Exists (@is_closed_err A) (p_outs (prun s more))).
+Proof.
+  intros s.
+  assert (Hi : pinv s) by (apply prun_inv, pinit_inv).
+  assert (Hw : p_written s = accepted ops) by (apply (pipeline_stream hops ops)).
+  destruct (drain_exists Hi (le_n _)) as (ops1 & D1 & D2 & D3 & D4).
+  set (s1 := prun s ops1) in *.
+  assert (Hi1 : pinv s1) by (apply prun_inv; exact Hi).
+  assert (Hdel : forall s', pinv s' -> pend_all (p_chs s') = [] -> p_written s' = p_written s ->
+                            p_delivered s' = accepted ops).
+  { intros s' Hi' Hp' Hw'. pose proof (inv_bytes Hi') as Hb. rewrite Hp', app_nil_r in Hb. congruence. }
+  destruct (head_closed (p_chs s)) eqn:Hh.
+  - destruct (close_exists Hi1 (le_n _) D1 ltac:(congruence)) as (ops2 & C1 & C2 & C3 & C4).
+    set (s2 := prun s1 ops2) in *.
+    assert (Hi2 : pinv s2) by (apply prun_inv; exact Hi1).
+    exists (ops1 ++ ops2 ++ [PRead 1 1 false]).
+    unfold prun. rewrite !fold_left_app. fold (prun s ops1). fold s1. fold (prun s1 ops2). fold s2.
+    cbn [fold_left].
+    pose proof (read_last_closed (inv_ne Hi2) (inv_wf Hi2) C1 C2) as Hcl.
+    assert (Hi3 : pinv (pstep s2 (PRead 1 1 false))) by (apply pstep_inv; exact Hi2).
+    assert (Hex : Exists (@is_closed_err A) (p_outs (pstep s2 (PRead 1 1 false)))).
+    { cbn [pstep]. destruct (read_last (p_chs s2) 1 1 false) as [chs' r]. cbn [snd] in Hcl.
+      rewrite Hcl. cbn [p_outs]. constructor. exact Hcl. }
+    split; [|split].
+    + apply Forall_app. split; [exact D4|]. apply Forall_app. split; [exact C4|]. constructor; [cbn; lia|constructor].
+    + destruct (inv_eof Hi3 Hex) as [_ Hp3]. apply Hdel; auto.
+      rewrite pstep_written. congruence.
+    + intros _. exact Hex.
+  - exists ops1. fold s1. split; [exact D4|]. split; [|discriminate]. apply Hdel; auto.
 Qed.
 
 End PipeLive.
